@@ -205,6 +205,9 @@ func (p *MapProvider) Provide(path string, digest []byte) (string, error) {
 type tracingProvider struct {
 	inner core.Provider
 	t     *Tracer
+	// rootName is the leaf name the filesystem operations use for the root
+	// path "" (the root is operated on through its parent directory).
+	rootName string
 }
 
 func (p *tracingProvider) Provide(path string, digest []byte) (string, error) {
@@ -215,7 +218,11 @@ func (p *tracingProvider) Provide(path string, digest []byte) (string, error) {
 			exists = true
 		}
 	}
-	p.t.Events = append(p.t.Events, Event{Op: "provide", Name: Leaf(path), Aux: exists})
+	name := Leaf(path)
+	if path == "" {
+		name = p.rootName
+	}
+	p.t.Events = append(p.t.Events, Event{Op: "provide", Name: name, Aux: exists})
 	return sp, err
 }
 
@@ -593,7 +600,7 @@ func Run(c *Case) (*Outcome, error) {
 	tracer.Cancel = cancel
 	filesystem.VerifSetFaultHook(tracer.hook)
 	o.Results, o.Problems, o.Missing = core.Transition(ctx, c.Root, c.Plan, c.Cache, c.Cfg.slMode(),
-		filesystem.Mode(c.Cfg.FileMode), filesystem.Mode(c.Cfg.DirMode), nil, false, &tracingProvider{c.Provider, tracer})
+		filesystem.Mode(c.Cfg.FileMode), filesystem.Mode(c.Cfg.DirMode), nil, false, &tracingProvider{c.Provider, tracer, c.Cfg.RootName})
 	filesystem.VerifSetFaultHook(nil)
 	o.Events = tracer.Events
 	// With the staging area on another device, the first rename of every
